@@ -24,3 +24,6 @@ pub fn new_processor(
     let endpoint_path = Arc::new(format!("/mrt/{}/", unit_name));
     (Processor::new(endpoint_path, update_path, queue_tx), queue_rx)
 }
+
+// ---- C16: the unit itself (queue loop, process_file) ----
+pub use super::unit::{MrtFileIn, MrtInRunner, VerifUnit};
